@@ -402,6 +402,13 @@ def gen_case(rng, **force):
         imports["decoy"] = rng.choice(["dir", "dir", "file"])
         if imports["decoy"] == "file":
             imports["decoy_src"] = "\n".join(rng.sample(IMPORT_LINES, rng.choice([1, 2]))) + "\n"
+    if imports["how"] == "symbol" and "imports" not in force and mod["mapping_form"] in ("ordered", "defaultdict") \
+            and (imports.get("form") == "mapping" or not any(e["feat"].get("obj") for e in mod["entries"])):
+        # the path would name the mapping object M itself; for an OrderedDict / defaultdict instance inspect resolves it
+        # to collections/__init__.py (52 KB of stdlib text), on which one request to the extracted model takes about ten
+        # minutes (its statement splitting is quadratic in the text length): a cost problem of the model, not a
+        # behaviour of gen worth that time.  Name the module instead (drawn without consuming randomness).
+        imports = {"how": "module"}
     cwd = force["cwd"] if "cwd" in force else rng.choice(CWDS)
     r = rng.random()
     shape = force.get("prepend_shape")                 # force: a prepend importing the input module, in this shape
